@@ -13,6 +13,18 @@ VERUS = {
     #   gcd(0, 0) / gcd_ext(0, 0) (documented panic) is the precondition.  KNOWN DEFECT excluded by precondition
     #   gcd_ext_large_pre: smaller Large operand divides the larger one and is > 2 words shorter (gcd_ext(2^320, 2^128) panics)
     'int_gcd_ops': {'file': 'int_gcd_ops.rs', 'w32': True, 'rlimit': 60},   # gcd_ext_large uses 20-30M of the default 30M
+    # integer/src/root_ops.rs `mod repr` sqrt_rem_large (bookkeeping around the ASSUMED Karatsuba root::sqrt_rem): normalising
+    # shift even and <= 2*BITS-2, shifted buffer exactly 2n words with top word >= B/4, un-normalisation of root and remainder:
+    #   s*s <= value < (s+1)*(s+1);  !root_only ==> remainder == value - s*s
+    'int_root_ops': {'file': 'int_root_ops.rs', 'w32': True, 'rlimit': 40},
+    # rational/src/cmp.rs with_float::repr_cmp_fbig (behind NumOrd / AbsOrd of RBig / Relaxed against FBig<_, B>, any base B >= 2):
+    #   infinite rhs: Less (+inf or ABS) / Greater (-inf);  otherwise ret == ordering of n/d against s * B^e (of the magnitudes if
+    #   ABS), cross-multiplied: e >= 0: cmp(n, s*d*B^e);  e < 0: cmp(n*B^-e, s*d).  The f32 log2 filter is ASSUMED sound.
+    'num_order_ratio_fbig': {'file': 'num_order_ratio_fbig.rs'},
+    # integer/src/third_party/num_order.rs macro impl_num_ord_ubig_with_float: `NumOrd<f32 / f64> for UBig :: num_partial_cmp`
+    # (instantiated for f32 and f64): ret == ordering of the exact real values, None for NaN; the step-3 bound is proved from
+    # "bit_len > MAX_EXP ==> x >= 2^MAX_EXP > every finite float" (bit_len == MAX_EXP is NOT enough)
+    'num_order_int_float': {'file': 'num_order_int_float.rs'},
 }
 
 KANI = {
@@ -35,9 +47,29 @@ KANI['gcdo_root'] = {
     },
 }
 
+KANI['gcdo_numhash'] = {
+    'package': 'dashu-float', 'target': 'float/src/third_party/num_order.rs', 'file': 'gcdo_numhash.rs',
+    'harnesses': {
+        'vk_gcdo_numhash_%s' % n: {'kind': 'bounded', 'bound': 'one concrete (base, significand, exponent) point'}
+        for n in ('b2_e3', 'b2_e127', 'b2_e300', 'b2_em130', 'b10_e2', 'b10_e130', 'b10_em129', 'b16_e127')
+    },
+}
+
 PROP_UNITS = {
-    'C12': {'verus': ['int_gcd_small', 'int_gcd_ops'],
-            'kani': ['gcdo_base'],
+    'C14': {'verus': ['num_order_ratio_fbig', 'num_order_int_float'],
+            'undecided': ['num_order_int_float ASSUMES (lib/gcdo_numord_stubs.rs, trusted): an abstract model of f32 / f64 (NaN / infinite '
+                          'flags, sign bit, decode pair (man, exp) with value == man * 2^exp, |man| < 2^MANTISSA_DIGITS, exp <= MAX_EXP - '
+                          'MANTISSA_DIGITS -- decode itself is proved for all bit patterns by the Kani group base_bit) and the documented '
+                          'meaning of is_nan / is_infinite / `== 0.0` / MANTISSA_DIGITS / MAX_EXP / Signed::sign / BitTest::bit_len / '
+                          'unsigned_abs in that model; UBig::from / << / partial_cmp / bit_len / is_zero stub contracts; the mirrored arms '
+                          '(`NumOrd<UBig> for f32`, the IBig arms) and NumHash for UBig / IBig are not under contract here','num_order_ratio_fbig ASSUMES (lib/gcdo_cmpf_stubs.rs, trusted): the f32 log2 filter of repr_cmp_fbig agrees with '
+                          'the exact comparison (log2_bounds are enclosures of log2 |value|, f32 `>` / `<` compare the reals, 2^x is '
+                          'monotone: ax_est_gt / ax_est_lt) -- only the infinity / sign cases and the exact step are proved; '
+                          'dashu-float Repr accessors, IBig <<= / *= / clone / cmp / abs_cmp, UBig::from_word / pow, Sign * Ordering, '
+                          'u64::is_power_of_two ==> w == 2^trailing_zeros (stub contracts); resource precondition |exponent| <= 2^56; '
+                          'the forwarding impls (AbsOrd / NumOrd for RBig, Relaxed, FBig and `.reverse()`) are not under contract']},
+    'C12': {'verus': ['int_gcd_small', 'int_gcd_ops', 'int_root_ops'],
+            'kani': ['gcdo_base', 'gcdo_root'],
             'undecided': ['int_gcd_small ASSUMES (lib/gcdo_stubs.rs, trusted): the Word / DoubleWord instances of the primitive '
                           'ExtendedGcd::gcd_ext return g >= 1, g | a, g | b, s*a + t*b == g with |s| <= b, |t| <= a (|t| < a if '
                           'a > b > 0) -- proved for the u8 instance of the same macro body by the complete Kani harnesses '
@@ -54,5 +86,10 @@ PROP_UNITS = {
                           'operands where the smaller DIVIDES the larger and is more than two words shorter panics in '
                           'div::div_rem_in_place (e.g. (UBig::ONE << 320).gcd_ext(&(UBig::ONE << 128))); the three forwarding Gcd '
                           'impls (`self.as_ref().gcd(..)`) and the UBig/IBig-level macros (sign of the cofactors for IBig) are not '
-                          'under contract']},
+                          'under contract',
+                          'int_root_ops ASSUMES (lib/gcdo_root_lemmas.rs, trusted): root::sqrt_rem (Karatsuba square root, root.rs) '
+                          'returns value(a) == s^2 + r, r <= 2s for a normalized 2n-word input -- only BOUNDED-checked by the Kani group '
+                          'gcdo_root (4/6/8-word inputs, palette words); Repr::into_buffer (normalized words); scratch memory opaque; '
+                          'the TypedReprRef::sqrt / sqrt_rem dispatch on `Small` values (primitive SquareRoot impls of dashu-base, Kani '
+                          'group base_root for u8/u16) and nth_root (Newton iteration on UBig) are not under contract']},
 }
